@@ -377,7 +377,7 @@ func vfC19Scenarios(thorough bool) []*vfGWScenario {
 		proto := map[string]string{"flood": "fs", "random": "rs", "gossip": "v11"}[router]
 		peers := []vfPeerCfg{{Name: "a", Proto: proto, IP: "10.0.0.1"}, {Name: "b", Proto: proto, IP: "10.0.0.2"}}
 		out = append(out, &vfGWScenario{Name: router + "-api", Cfg: vfGWCfg{Router: router, Peers: peers, Topics: []string{"t", "u"}, Params: "d2", Tracer: true, Prefix: []string{"conn:a", "sub:a:t"}, SeenTTL: 3600},
-			Alphabet: []string{"join:t", "leave:t", "relay:t", "unrelay:t", "join:u", "leave:u", "conn:b", "disc:a", "conn:a", "sub:b:t", "sub:a:t", "pub:a:m1", "pub:b:m1", "pubdup:a:m2", "lpub:t:p1", "lpub:u:p2", "hb", "outreset:a"},
+			Alphabet: []string{"join:t", "leave:t", "relay:t", "unrelay:t", "join:u", "leave:u", "conn:b", "disc:a", "conn:a", "sub:b:t", "sub:a:t", "pub:a:m1", "pub:b:m1", "pubdup:a:m2", "lpub:t:p1", "lpub:u:p2", "lpub:t:p3:key", "hb", "outreset:a"},
 			Msgs:     msgs, Depth: d, MaxSubs: 2})
 	}
 	p4 := []vfPeerCfg{{Name: "a", Proto: "v11", IP: "10.0.0.1"}, {Name: "b", Proto: "v12", IP: "10.0.0.2", Outbound: true}, {Name: "c", Proto: "v10", IP: "10.0.0.3"}, {Name: "d", Proto: "fs", IP: "10.0.0.4"}}
@@ -394,7 +394,7 @@ func vfC19Scenarios(thorough bool) []*vfGWScenario {
 		Msgs:     msgs, Depth: d + 1})
 	out = append(out, &vfGWScenario{Name: "gossip-fanoutonly", Cfg: vfGWCfg{Router: "gossip", Peers: p4[:2], Topics: []string{"t", "u"}, Params: "d2", Tracer: true, SeenTTL: 3600, Extra: map[string]string{"fanout_only": "t"},
 		Prefix: []string{"conn:a", "sub:a:t"}},
-		Alphabet: []string{"join:t", "leave:t", "join:u", "leave:u", "relay:u", "unrelay:u", "lpub:t:p1", "lpub:t:p2", "hb", "conn:b", "sub:b:t"}, Msgs: msgs, Depth: d})
+		Alphabet: []string{"join:t", "leave:t", "join:u", "leave:u", "relay:u", "unrelay:u", "lpub:t:p1", "lpub:t:p2", "lpub:t:p3:key", "hb", "conn:b", "sub:b:t"}, Msgs: msgs, Depth: d})
 	return out
 }
 
